@@ -373,7 +373,13 @@ fn viterbi_traceback(vals: Array2<LogProb>, from: Array2<usize>) -> (Vec<State>,
 /// - `O` - the observation type
 /// - `M` - type `Model` type
 pub fn viterbi<O, M: Model<O>>(hmm: &M, observations: &[O]) -> (Vec<State>, LogProb) {
-    let (vals, from) = viterbi_matrices(hmm, observations);
+    let (mut vals, from) = viterbi_matrices(hmm, observations);
+    // Account for the probability of ending in each state (as `forward` and `backward` do).
+    if let (true, Some(last)) = (hmm.has_end_state(), observations.len().checked_sub(1)) {
+        for s in hmm.states() {
+            vals[[last, *s]] = vals[[last, *s]] + hmm.end_prob(s);
+        }
+    }
     viterbi_traceback(vals, from)
 }
 
